@@ -28,8 +28,8 @@ ASSUMPTIONS = ["envelope domain: 'jsonrpc' absent or float()-able and <= 2.0 (ot
 
 CODES = [-32701, -32700, -32699, -32001, -32000, -31999, -32000.5, -32700.0, -32700.5, -31999.5, 0, 1, 2 ** 60,
          "abc", "", None, True, [1], {"a": 1}]
-RESULTS_QUICK = ["<absent>", None, 0]
-RESULTS_ALL = ["<absent>", None, 0, False, "", [], {}, 1, {"a": [1, 2.5]}]
+RESULTS_QUICK = ["<absent>", None, 0, [7]]
+RESULTS_ALL = ["<absent>", None, 0, False, "", [], {}, 1, {"a": [1, 2.5]}, [7], [[]], [None], [{"a": 1}], [[1, 2]], [0]]
 ENVELOPES = ["v1", "v2s", "v2f", "v2i"]
 
 
